@@ -9,6 +9,7 @@ mod fw;
 mod props;
 
 mod refvm;
+mod sched;
 mod util;
 mod xplore;
 
